@@ -3,8 +3,6 @@ use crate::bridge::*;
 use crate::gen::*;
 use crate::props::*;
 use crate::runner::*;
-use proptest::strategy::{Strategy, ValueTree};
-use proptest::test_runner::{Config, RngAlgorithm, TestRng, TestRunner};
 use std::sync::Once;
 
 static QUIET: Once = Once::new();
@@ -41,11 +39,7 @@ pub fn positions_from_bytes(data: &[u8]) -> Vec<(&'static str, CaseResult)> {
     if data.len() < 8 {
         return Vec::new();
     }
-    let rng = TestRng::from_seed(RngAlgorithm::PassThrough, data);
-    let mut runner = TestRunner::new_with_rng(Config { failure_persistence: None, ..Config::default() }, rng);
-    let strategy = arb_case(2, 1, 8, 40);
-    let Ok(tree) = strategy.new_tree(&mut runner) else { return Vec::new() };
-    let case = tree.current();
+    let case = crate::fuzzdecode::pos_case(&mut crate::fuzzdecode::Reader::new(data));
     let Some((board, origin)) = start_board(&case.start) else { return Vec::new() };
     let mut out: Vec<(&'static str, CaseResult)> = Vec::new();
     let _ = walk::<()>(board, &case.ops, |b, p, step, hist| {
@@ -80,11 +74,7 @@ pub fn state_from_bytes(data: &[u8]) -> Vec<(&'static str, CaseResult)> {
     if data.len() < 8 {
         return Vec::new();
     }
-    let rng = TestRng::from_seed(RngAlgorithm::PassThrough, data);
-    let mut runner = TestRunner::new_with_rng(Config { failure_persistence: None, ..Config::default() }, rng);
-    let strategy = crate::gen2::arb_edited_state();
-    let Ok(tree) = strategy.new_tree(&mut runner) else { return Vec::new() };
-    let st = tree.current().state();
+    let st = crate::fuzzdecode::edited_state(&mut crate::fuzzdecode::Reader::new(data)).state();
     let mut out: Vec<(&'static str, CaseResult)> = Vec::new();
     out.push(("C06", c06::check_builder_state(&st)));
     out.push(("C09", c09::check_state(&st)));
